@@ -204,8 +204,8 @@ theorem filter_id_of_all {p : Char → Bool} : ∀ (l : Str), (∀ c ∈ l, p c 
 
 /-- **the directive grammar is understood by fmt**: for every format `parseFormat` accepts (numbers within fmt's
     limit), the string handed to fmt parses to the same verb, width, precision and flags -/
-theorem parseFormat_goOK (orig : Str) (sep sep2 : Option Str) (f : Fmt) (h : parseFormat orig sep sep2 = .ok f)
-    (hn : NumOK f) : GoOK f := by
+theorem parseFormat_goOK0 (orig : Str) (sep sep2 : Option Str) (f : Fmt) (h : parseFormat orig sep sep2 = .ok f)
+    (hn : NumOK f) : GoOK0 f := by
   obtain ⟨p, hasPlus, hasSpace, hm, hplus, hspace, hleft, halt, hzero, hfplus, hletter, hwidth, hprec, horig⟩ :=
     parseFormat_ok orig sep sep2 f h
   obtain ⟨rest, hs, hfl, hwd, hlet, htail⟩ := matchPattern_some orig p hm
@@ -276,7 +276,7 @@ theorem parseFormat_goOK (orig : Str) (sep sep2 : Option Str) (f : Fmt) (h : par
       simp only [he, Bool.false_eq_true, if_false]
       rw [goNum_ok wd hne hwd_digits (hn.width _ (by rw [hwidth, hwd]; simp [he]))]
       rfl
-  unfold GoOK
+  unfold GoOK0
   rw [hgf]
   unfold goParse
   simp only [htk, hdr, hwddef, hr2def, hwid]
